@@ -62,7 +62,7 @@ impl Prop for C03 {
         300
     }
     fn cases(&self, tier: Tier) -> u32 {
-        tier.pick(40_000, 1_000_000)
+        tier.pick(500_000, 8_000_000)
     }
     fn decode(&self, choices: &[u32], tier: Tier) -> Value {
         let mut ch = Choices::new(choices);
